@@ -106,3 +106,33 @@ Proof.
   - pose proof (reuse_sound (map expand_uop uops)) as L. destruct (brun [] (map expand_uop uops)) as [o f].
     apply andb_prop in H as [H1 _]. apply douts_eqb_eq in H1. rewrite <- H1. exact L.
 Qed.
+
+(* round 8: the argument of ReWrite may be a slice of the buffer's own unread bytes (bs[from : from+m], e.g. moving a
+   body to make room for a header). "The bytes passed in" are the values at the call: the result is the instance of
+   rewrite_exact at p := that sub-list, i.e. an overlap-safe move. *)
+Lemma nth_firstn_lt (d : Z) : forall m l k, (k < m)%nat -> nth k (firstn m l) d = nth k l d.
+Proof.
+  induction m; intros l k H; [lia|]. destruct l; [destruct k; reflexivity|].
+  destruct k; cbn; [reflexivity|apply IHm; lia].
+Qed.
+Lemma nth_skipn_add (d : Z) : forall from l k, nth k (skipn from l) d = nth (from + k) l d.
+Proof.
+  induction from; intros l k; [reflexivity|]. destruct l; cbn; [destruct k; reflexivity|apply IHfrom].
+Qed.
+Lemma rewrite_from_self : forall bs pos from m,
+  0 <= pos <= zlen bs -> (from + m <= length bs)%nat ->
+  exists bs', bstep bs (XReWrite pos (firstn m (skipn from bs))) = (ODone, bs') /\ length bs' = length bs /\
+    forall i, (i < length bs)%nat ->
+      nth i bs' 0 = if (pos <=? Z.of_nat i) && (Z.of_nat i <? pos + Z.of_nat m)
+                    then nth (from + Z.to_nat (Z.of_nat i - pos)) bs 0 else nth i bs 0.
+Proof.
+  intros bs pos from m Hpos Hm.
+  destruct (rewrite_exact bs pos (firstn m (skipn from bs))) as [H _].
+  destruct (H Hpos) as (bs' & E & L & N). exists bs'. split; [exact E|]. split; [exact L|].
+  intros i Hi. rewrite (N i Hi).
+  assert (Z : zlen (firstn m (skipn from bs)) = Z.of_nat m).
+  { unfold zlen. rewrite firstn_length, skipn_length. lia. }
+  rewrite Z. destruct ((pos <=? Z.of_nat i) && (Z.of_nat i <? pos + Z.of_nat m)) eqn:C; [|reflexivity].
+  apply andb_prop in C as [C1 C2]. apply Z.leb_le in C1. apply Z.ltb_lt in C2.
+  rewrite nth_firstn_lt by lia. apply nth_skipn_add.
+Qed.
